@@ -133,7 +133,7 @@ def run(ctx):
     ctx.build_harness()
     ops, rows = translator(ctx)
     ctx.build_model()
-    proof = ctx.lean_check()
+    proof = ctx.lean_check(modules=["JaqVerif.Props.C15", "JaqVerif.Props.C15Sugar"])
     ctx.log("lean:", "ok" if proof["ok"] else "BROKEN", len(proof["theorems"]), "theorems")
     nbad = matrix_vs_spec(ctx, ops, rows)
     ctx.log("translator: %d x %d grouping matrix, %d entries differ from the manual's table" % (len(ops), len(ops), nbad))
@@ -197,6 +197,8 @@ def run(ctx):
     ctx.log("sugar oracle: %d (shorthand, expansion, input) runs, %d differ" % (stot, sfail))
 
     ctx.coverage.update({
+        "checker_cmd": "cd lean && lake build JaqVerif.Props.C15 JaqVerif.Props.C15Sugar && lake env lean Audit/C15.lean  "
+                       "(#print axioms of every theorem of both files; thorough: lake env leanchecker)",
         "evaluations": corr.total + stot + len(ops) ** 2,
         "distinct_nontrivial": len(corr.seen),
         "rule": "distinct program texts given to both parsers (every text exercises lexer + parser; texts are "
